@@ -1,5 +1,5 @@
 """Random: C18 (+ the random part of C13) — Random.tla / RandomTrace.tla / harness/cmd/random."""
-from props import ModuleCheck, T
+from props import ModuleCheck, T, bundled
 
 RANDOM_CLAUSES_C18 = ["C18_Due", "C18_Once", "C18_Range", "C18_Pure", "C18_Stable"]
 # the pending-request queue clauses of C13 carried by the same traces
@@ -12,6 +12,8 @@ RANDOM_RND = T(
     [dict(n=60, len=30, procs=7, cfg="users=3,provs=2,funds=25,timeout=2"),
      dict(n=60, len=40, procs=7, cfg="users=4,provs=1,funds=35,timeout=3,maxn=5"),
      dict(n=30, len=40, procs=4, cfg="users=3,provs=1,bound=0,funds=25,timeout=2,zh=1")])
+# multi-message transactions (runs of one signer's messages delivered as one real transaction)
+bundled(RANDOM_RND)
 RANDOM_GEN = T([dict(cfg="GEN_Random.cfg", num=16, depth=22, seeds=10)],
                [dict(cfg="GEN_Random.cfg", num=60, depth=26, seeds=14)])
 RANDOM_MC = T([dict(cfg="MC_Random.cfg", timeout=1500),
@@ -29,7 +31,7 @@ RANDOM_SCN = [dict(file="scenarios/random_cover.ndjson", cfg=RANDOM_GEN_CFG),
               dict(file="scenarios/random_zh.ndjson", cfg="users=2,provs=1,bound=0,funds=25,timeout=2,price=10")]
 
 # histories recorded (VERIF_RECORD_DIR) and replayed by the cross-module checks C11 / C12
-RECORD = [dict(binary="random", n=T(3, 12), len=25, cfg="users=3,provs=2,funds=25,timeout=2")]
+RECORD = [dict(binary="random", n=T(3, 12), len=25, cfg="users=3,provs=2,funds=25,timeout=2" + ",bundle=30")]
 
 PROPS = {
     "C18": ModuleCheck("random", "Random.tla", "RandomTrace.tla", "RandomTrace.cfg", RANDOM_CLAUSES_C18,
